@@ -131,6 +131,18 @@ def run_shard(shard):
         except Exception as e:  # noqa: BLE001
             viol(f"eager.{type(e).__name__}", f"eager call raised {type(e).__name__}: {str(e)[:200]}")
             return
+        # ---- (0) the same call with NumPy arrays (what a user holding data in NumPy passes; tracing converts them, the eager
+        # path must too): same bits, jax arrays out
+        if all(a is None or isinstance(a, jax.Array) for a in a0) and any(a is not None and jnp.issubdtype(a.dtype, jnp.floating) for a in a0):
+            try:
+                en = call(model, *[None if a is None else np.asarray(a) for a in a0])
+                rec.count("numpy_input_eager_calls")
+                if not bits_equal(en, e0):
+                    viol("eager.numpy_input", "the eager call with NumPy array arguments returns different bits / dtypes than with the same values as jax arrays")
+                elif not all(isinstance(l, jax.Array) for l in jax.tree_util.tree_leaves(en)):
+                    viol("eager.numpy_input", f"the eager call with NumPy array arguments returns {[type(l).__name__ for l in jax.tree_util.tree_leaves(en)]} instead of jax arrays")
+            except Exception as e:  # noqa: BLE001
+                viol(f"eager.numpy_input.{type(e).__name__}", f"eager call with NumPy array arguments raised {type(e).__name__}: {str(e)[:200]}")
         jf = eqx.filter_jit(call)
         # ---- (1) jit with the model as an argument; bound-method jit
         try:
@@ -214,6 +226,24 @@ def run_shard(shard):
                 rec.count("serialisation_roundtrips")
                 if not bits_equal(jf(loaded, *a0), j0):
                     viol("serialisation", "tree_serialise_leaves -> tree_deserialise_leaves into a freshly built model changed the result")
+                # ... also for inputs narrower than the default float type (single precision data under x64): a restored model must
+                # promote exactly as the original does (weakly typed parameter leaves would not survive the round trip)
+                if any(a is not None and hasattr(a, "dtype") and a.dtype == jnp.float64 for a in a0):
+                    a32 = tuple(a.astype(jnp.float32) if (a is not None and hasattr(a, "dtype") and a.dtype == jnp.float64) else a for a in a0)
+                    try:
+                        try:
+                            r_orig = call(model, *a32)
+                        except Exception:  # noqa: BLE001 - e.g. a Scan whose float64 parameters meet a float32 carry: JAX rejects the mix loudly
+                            rec.count("narrow_input_rejected_by_the_original_model")
+                            raise NotImplementedError
+                        r_load, r_flat = call(loaded, *a32), call(m2, *a32)
+                        rec.count("serialisation_narrow_input_comparisons")
+                        if not (bits_equal(r_orig, r_load) and bits_equal(r_orig, r_flat)):
+                            dts = lambda r: [str(l.dtype) for l in jax.tree_util.tree_leaves(r)]
+                            viol("serialisation.narrow_input", f"with float32 arguments the restored / re-flattened model returns {dts(r_load)} / {dts(r_flat)} values that differ "
+                                                               f"in bits or dtype from the original model's {dts(r_orig)}")
+                    except NotImplementedError:
+                        pass
         except Exception as e:  # noqa: BLE001
             viol(f"serialisation.{type(e).__name__}", f"flatten/serialisation raised {type(e).__name__}: {str(e)[:200]}")
         if nontrivial_test(e0, a0):
@@ -296,6 +326,9 @@ def run_shard(shard):
                 "coupling_flow": lambda kk: coupling_flow(kk, base_dist=D.StandardNormal((3,)), flow_layers=2, nn_width=4, cond_dim=2),
                 "maf_rqs": lambda kk: masked_autoregressive_flow(kk, base_dist=D.Normal(jnp.zeros(2), jnp.ones(2)), flow_layers=2, nn_width=4, transformer=B.RationalQuadraticSpline(knots=3, interval=3)),
                 "planar_flow": lambda kk: planar_flow(kk, base_dist=D.StandardNormal((2,)), flow_layers=2, negative_slope=0.2),
+                # parameters handed over as python scalars
+                "Normal(python floats)": lambda kk: D.Normal(0.5, 2.0), "Exponential(python float)": lambda kk: D.Exponential(2.0),
+                "Transformed(Normal, Affine(python floats))": lambda kk: D.Transformed(D.Normal(0.0, 1.0), B.Chain([B.Affine(0.5, 2.0), B.Scale(3.0), B.Loc(-1.0)])),
                 "Transformed(Partial bool)": lambda kk: D.Transformed(D.StandardNormal((4,)), B.Partial(B.Affine(jr.normal(kk, (2,)), jnp.ones(2) * 2), jnp.array([True, False, True, False]), (4,))),
             }
             if env.shim_ok():
